@@ -10,6 +10,8 @@ use std::cell::RefCell;
 #[derive(Clone, Debug)]
 pub struct SearchSpec {
     pub kind: String,   // bfs dfs pfs-min pfs-max pre post
+    /// `kind~n`: the n-th order of the builder's configuration calls (`min/max`, `transpose`, `target`)
+    pub variant: usize,
     pub tr: bool,       // transpose()
     pub dflt: bool,     // ordering without an explicit direction (`postorder()` default)
     pub root: usize,
@@ -49,10 +51,14 @@ pub fn parse_search(t: &[&str]) -> SearchSpec {
             (m.to_string(), vec![])
         }
     }(mtok);
+    let (kind, variant) = match t[1].split_once('~') {
+        Some((k, v)) => (k.to_string(), v.parse().unwrap_or(0)),
+        None => (t[1].to_string(), 0),
+    };
     if t[0] == "search" {
-        SearchSpec { kind: t[1].into(), tr: t[2] == "tr", dflt: false, root: t[3].parse().unwrap(), target: t[4].parse().ok(), method, rej, mode: t[6].into(), script }
+        SearchSpec { kind: kind, variant, tr: t[2] == "tr", dflt: false, root: t[3].parse().unwrap(), target: t[4].parse().ok(), method, rej, mode: t[6].into(), script }
     } else {
-        SearchSpec { kind: t[1].into(), tr: t[2] == "tr", dflt: t[2] == "default", root: t[3].parse().unwrap(), target: None, method, rej, mode: t[5].into(), script }
+        SearchSpec { kind, variant, tr: t[2] == "tr", dflt: t[2] == "default", root: t[3].parse().unwrap(), target: None, method, rej, mode: t[5].into(), script }
     }
 }
 
@@ -301,22 +307,30 @@ macro_rules! kind_search {
                 run_search_modes!(spec, out, trace, st);
                 match spec.kind.as_str() {
                     "bfs" => {
-                        let b = root.bfs();
-                        let b = if spec.tr { b.transpose() } else { b };
-                        let b = match &tgt { Some(t) => b.target(t), None => b };
+                        // the configuration calls in the order the variant says: T = transpose, G = target
+                        let mut b = root.bfs();
+                        for step in [["T", "G"], ["G", "T"]][spec.variant % 2] {
+                            b = match step { "T" => if spec.tr { b.transpose() } else { b }, _ => match &tgt { Some(t) => b.target(t), None => b } };
+                        }
                         with_method!(b, spec, trace, run, hook)
                     }
                     "dfs" => {
-                        let b = root.dfs();
-                        let b = if spec.tr { b.transpose() } else { b };
-                        let b = match &tgt { Some(t) => b.target(t), None => b };
+                        let mut b = root.dfs();
+                        for step in [["T", "G"], ["G", "T"]][spec.variant % 2] {
+                            b = match step { "T" => if spec.tr { b.transpose() } else { b }, _ => match &tgt { Some(t) => b.target(t), None => b } };
+                        }
                         with_method!(b, spec, trace, run, hook)
                     }
                     "pfs-min" | "pfs-max" => {
-                        let b = root.pfs();
-                        let b = if spec.kind == "pfs-max" { b.max() } else { b.min() };
-                        let b = if spec.tr { b.transpose() } else { b };
-                        let b = match &tgt { Some(t) => b.target(t), None => b };
+                        // P = min()/max()
+                        let mut b = root.pfs();
+                        for step in [["P", "T", "G"], ["T", "P", "G"], ["G", "T", "P"], ["P", "G", "T"], ["T", "G", "P"], ["G", "P", "T"]][spec.variant % 6] {
+                            b = match step {
+                                "P" => if spec.kind == "pfs-max" { b.max() } else { b.min() },
+                                "T" => if spec.tr { b.transpose() } else { b },
+                                _ => match &tgt { Some(t) => b.target(t), None => b },
+                            };
+                        }
                         with_method!(b, spec, trace, run, hook)
                     }
                     _ => {}
@@ -361,9 +375,10 @@ macro_rules! kind_search {
                         with_method!(b, spec, trace, run, hook)
                     }
                     "pfs-min" | "pfs-max" => {
-                        let b = root.pfs();
-                        let b = if spec.kind == "pfs-max" { b.max() } else { b.min() };
-                        let b = match &tgt { Some(t) => b.target(t), None => b };
+                        let mut b = root.pfs();
+                        for step in [["P", "G"], ["G", "P"]][spec.variant % 2] {
+                            b = match step { "P" => if spec.kind == "pfs-max" { b.max() } else { b.min() }, _ => match &tgt { Some(t) => b.target(t), None => b } };
+                        }
                         with_method!(b, spec, trace, run, hook)
                     }
                     _ => {}
@@ -423,6 +438,15 @@ macro_rules! kind_reversed {
         fn nested_search(n: &N, t: usize) -> Option<usize> {
             n.bfs().target(&t).search_path().map(|p| p.len() - 1)
         }
+        /// other traversals started from inside a running one: dfs, pfs, transposed dfs (path lengths), preorder (count)
+        fn nested_other(kind: &str, n: &N, t: usize) -> Option<usize> {
+            match kind {
+                "sd" => n.dfs().target(&t).search_path().map(|p| p.len() - 1),
+                "sp" => n.pfs().min().target(&t).search_path().map(|p| p.len() - 1),
+                "st" => n.dfs().transpose().target(&t).search_path().map(|p| p.len() - 1),
+                _ => Some(n.preorder().search_nodes().len()),
+            }
+        }
         /// fresh nodes with every edge reversed; `out_from_in`: new outgoing lists = old incoming lists
         /// (same order), otherwise new incoming lists = old outgoing lists (same order)
         pub fn reversed(st: &St, out_from_in: bool) -> St {
@@ -459,6 +483,13 @@ macro_rules! kind_reversed {
         }
         fn nested_search(n: &N, t: usize) -> Option<usize> {
             n.bfs().target(&t).search_path().map(|p| p.len() - 1)
+        }
+        fn nested_other(kind: &str, n: &N, t: usize) -> Option<usize> {
+            match kind {
+                "sd" | "st" => n.dfs().target(&t).search_path().map(|p| p.len() - 1),
+                "sp" => n.pfs().min().target(&t).search_path().map(|p| p.len() - 1),
+                _ => Some(n.order().pre().search_nodes().len()),
+            }
         }
         pub fn reversed(st: &St, _out_from_in: bool) -> St {
             St { nodes: st.nodes.clone(), twins: vec![] }
@@ -574,6 +605,10 @@ macro_rules! ext_mod {
                     }
                     "q" => format!("{}", n(op.a).is_connected(&op.b) as u8),
                     "s" => match nested_search(&n(op.a), op.b) {
+                        Some(l) => format!("len={l}"),
+                        None => "none".into(),
+                    },
+                    "sd" | "sp" | "st" | "so" => match nested_other(op.kind.as_str(), &n(op.a), op.b) {
                         Some(l) => format!("len={l}"),
                         None => "none".into(),
                     },
@@ -750,6 +785,18 @@ macro_rules! ext_mod {
                             }
                         }
                         let mut shown = show_search(&spec, &out);
+                        if let Some(sc) = &spec.script {
+                            // a closure that only looks (queries, nested traversals) must see exactly the static traversal
+                            let read_only = crate::exec_cont::parse_script(sc).iter().all(|e| e.ops.iter().all(|o| ["q", "s", "sd", "sp", "st", "so"].contains(&o.kind.as_str())));
+                            if read_only && ctx.has("c20") {
+                                let mut plain = spec.clone();
+                                plain.script = None;
+                                let shown0 = show_search(&plain, &do_search(st, &plain, None));
+                                if shown0 != shown {
+                                    ctx.fail(case, li, "c20", format!("the closure only looks at the graph (`{sc}`), yet the traversal differs from the one without it: `{shown}` instead of `{shown0}`"));
+                                }
+                            }
+                        }
                         if spec.script.is_some() {
                             shown.push_str(&format!(" res=[{}]", sres.into_inner().join(",")));
                         }
